@@ -13,9 +13,14 @@
  *                                    SKIs) and looks every listed key up again through spki_table_get_all; "K" line.
  *                                    Every reload also logs the geometry of the live router-key hash table before and
  *                                    after ("G" line, and an "H" history line on stderr that survives a crash).
- *   locks_harness xtable <script>    C06 cross-table schedule: a reader is parked inside a read section of the live
- *                                    router-key table (the harness holds the read lock on its behalf) while the real
- *                                    reload runs; a second reader validates a route and then looks up a router key.
+ *   locks_harness xtable <script>    C06 cross-table schedule: a reader is parked inside a read section of one live table
+ *                                    (header `park spki` = router-key table, the default, or `park pfx`; the harness
+ *                                    holds the read lock on its behalf) while the real reload runs; a second reader
+ *                                    alternately validates a route and then looks up a router key, and looks up the key
+ *                                    and then validates.  The data set is prefixes AND router keys: the reader must never
+ *                                    see new prefixes and afterwards old keys, nor new keys and afterwards old prefixes.
+ *                                    (With the two swaps in two critical sections the first happens under `park spki`:
+ *                                    known finding C06/cross-table until the reload got one combined section.)
  *
  * Output: "W <k> <rc>" per writer operation, "G <k> <count> <buckets> <count'> <buckets'>" per reload,
  *         "K <k> <nlist> <hlist> <nfound> <hfound> <hashcount> <buckets>" per kcheck,
@@ -167,6 +172,7 @@ static int nreaders = 4;
 static int minreads = 50;
 static int maxrec = 100000;
 static int history; /* header `history 1`: log reloads / kchecks on stderr as they happen (survives a crash) */
+static int park_pfx; /* xtable: header `park pfx`: the parked reader sits in the prefix table (default: router-key table) */
 
 static _Atomic unsigned int ver_begin, ver_end;
 static _Atomic int writer_done;
@@ -354,6 +360,10 @@ static bool load_script(const char *path)
 			maxrec = atoi(w[1]);
 		} else if (!strcmp(w[0], "history") && n == 2) {
 			history = atoi(w[1]);
+		} else if (!strcmp(w[0], "park") && n == 2) {
+			if (strcmp(w[1], "pfx") && strcmp(w[1], "spki"))
+				return false;
+			park_pfx = !strcmp(w[1], "pfx");
 		} else if (!strcmp(w[0], "probe") && n >= 2) {
 			struct probe *p;
 
@@ -771,7 +781,7 @@ static int stress(void)
 }
 
 /* ---- C06 cross-table schedule --------------------------------------------------------------------------- */
-static _Atomic int x_stop, x_seen_new_old, x_seen_new_pfx;
+static _Atomic int x_stop, x_seen_new_old, x_seen_new_pfx, x_seen_new_keys, x_seen_newkeys_oldpfx, x_rounds;
 static _Atomic int x_first_v = -1, x_first_k = -1, x_gap_v = -1, x_gap_k = -1;
 
 static void *xreader(void *arg)
@@ -779,13 +789,21 @@ static void *xreader(void *arg)
 	const struct probe *pv = &probes[0], *pk = &probes[1];
 	struct obs first_v, first_k;
 	bool have_first = false;
+	unsigned int round = 0;
 
 	(void)arg;
 	while (!atomic_load_explicit(&x_stop, memory_order_relaxed)) {
 		struct obs ov, ok;
+		bool v_first = !have_first || (round++ & 1) == 0;
+		bool v_new, k_new;
 
-		run_probe(pv, &ov);   /* route validation … */
-		run_probe(pk, &ok);   /* … then router-key look-up */
+		if (v_first) {
+			run_probe(pv, &ov);   /* route validation … */
+			run_probe(pk, &ok);   /* … then router-key look-up */
+		} else {
+			run_probe(pk, &ok);   /* router-key look-up … */
+			run_probe(pv, &ov);   /* … then route validation */
+		}
 		if (!have_first) {
 			first_v = ov;
 			first_k = ok;
@@ -793,15 +811,21 @@ static void *xreader(void *arg)
 			atomic_store(&x_first_v, (int)ov.state);
 			atomic_store(&x_first_k, (int)ok.count);
 		}
-		if (ov.state != first_v.state) {
+		v_new = ov.state != first_v.state;
+		k_new = !(ok.count == first_k.count && ok.hash == first_k.hash);
+		if (v_new)
 			atomic_store_explicit(&x_seen_new_pfx, 1, memory_order_relaxed);
-			if (ok.count == first_k.count && ok.hash == first_k.hash &&
-			    !atomic_load_explicit(&x_seen_new_old, memory_order_relaxed)) {
-				atomic_store(&x_gap_v, (int)ov.state);
-				atomic_store(&x_gap_k, (int)ok.count);
-				atomic_store_explicit(&x_seen_new_old, 1, memory_order_relaxed);
-			}
+		if (k_new)
+			atomic_store_explicit(&x_seen_new_keys, 1, memory_order_relaxed);
+		/* the second observation is the later one: new data first and old data of the other table afterwards */
+		if (v_first && v_new && !k_new && !atomic_load_explicit(&x_seen_new_old, memory_order_relaxed)) {
+			atomic_store(&x_gap_v, (int)ov.state);
+			atomic_store(&x_gap_k, (int)ok.count);
+			atomic_store_explicit(&x_seen_new_old, 1, memory_order_relaxed);
 		}
+		if (!v_first && k_new && !v_new)
+			atomic_store_explicit(&x_seen_newkeys_oldpfx, 1, memory_order_relaxed);
+		atomic_fetch_add_explicit(&x_rounds, 1, memory_order_relaxed);
 		sched_yield();
 	}
 	return NULL;
@@ -820,6 +844,7 @@ static int xtable(void)
 	struct op *reload = NULL;
 	void *rc;
 	struct obs fv, fk;
+	int parked_in_section = 0, busy = 0, rounds_before, rounds_parked;
 
 	if (nprobes < 2 || probes[0].k != PR_VAL || probes[1].k != PR_KEY) {
 		puts("bad-op xtable needs a validation probe and a key probe");
@@ -840,24 +865,57 @@ static int xtable(void)
 	pthread_create(&rt, NULL, xreader, NULL);
 	while (atomic_load(&x_first_v) < 0)
 		sched_yield();
-	/* a reader parked inside a read critical section of the live router-key table (as if preempted inside
-	 * spki_table_get_all): the harness holds the read lock on its behalf */
-	pthread_rwlock_rdlock(&live_spki.lock);
+	/* a reader parked inside a read critical section of one live table (as if preempted inside spki_table_get_all /
+	 * pfx_table_validate_r): the harness holds the read lock on its behalf */
+	if (park_pfx)
+		pthread_rwlock_rdlock(&live_pfx.lock);
+	else
+		pthread_rwlock_rdlock(&live_spki.lock);
+	rounds_before = atomic_load(&x_rounds);
 	pthread_create(&st, NULL, xsync, reload);
-	for (int i = 0; i < 4000 && !atomic_load_explicit(&x_seen_new_pfx, memory_order_relaxed); i++)
+	/* wait until the second reader has seen new data of the table that is not parked, or - `park spki` - until the
+	 * synchronising thread sits inside a write section of the prefix table (it holds that lock and waits for ours: the
+	 * combined section of the repaired code; the second reader then waits for the prefix table as well), or until the
+	 * reload had ample time to reach its swap */
+	for (int i = 0; i < (park_pfx ? 800 : 4000); i++) {
+		if (atomic_load_explicit(park_pfx ? &x_seen_new_keys : &x_seen_new_pfx, memory_order_relaxed))
+			break;
+		if (!park_pfx) {
+			if (pthread_rwlock_tryrdlock(&live_pfx.lock) == 0) {
+				pthread_rwlock_unlock(&live_pfx.lock);
+				busy = 0;
+			} else if (++busy >= 60) {
+				parked_in_section = 1;
+				break;
+			}
+		}
 		usleep(500);
-	for (int i = 0; i < 400 && atomic_load_explicit(&x_seen_new_pfx, memory_order_relaxed) &&
-			!atomic_load_explicit(&x_seen_new_old, memory_order_relaxed); i++)
+	}
+	/* … and give it time to make the second observation of the pair */
+	for (int i = 0; i < 400 && !parked_in_section &&
+			atomic_load_explicit(park_pfx ? &x_seen_new_keys : &x_seen_new_pfx, memory_order_relaxed) &&
+			!atomic_load_explicit(park_pfx ? &x_seen_newkeys_oldpfx : &x_seen_new_old, memory_order_relaxed); i++)
 		usleep(500);
-	pthread_rwlock_unlock(&live_spki.lock);
+	rounds_parked = atomic_load(&x_rounds) - rounds_before;
+	if (park_pfx)
+		pthread_rwlock_unlock(&live_pfx.lock);
+	else
+		pthread_rwlock_unlock(&live_spki.lock);
 	pthread_join(st, &rc);
+	/* a few more rounds of the second reader after the reload */
+	for (int i = 0, r0 = atomic_load(&x_rounds); i < 2000 && atomic_load(&x_rounds) < r0 + 4; i++)
+		usleep(200);
 	atomic_store_explicit(&x_stop, 1, memory_order_relaxed);
 	pthread_join(rt, NULL);
 	run_probe(&probes[0], &fv);
 	run_probe(&probes[1], &fk);
-	printf("X reload_rc=%d first_pfx=%d first_keys=%d saw_new_pfx=%d saw_new_pfx_with_old_keys=%d gap_pfx=%d gap_keys=%d final_pfx=%u final_keys=%u\n",
-	       (int)(intptr_t)rc, atomic_load(&x_first_v), atomic_load(&x_first_k), atomic_load(&x_seen_new_pfx),
-	       atomic_load(&x_seen_new_old), atomic_load(&x_gap_v), atomic_load(&x_gap_k), fv.state, fk.count);
+	printf("X park=%s reload_rc=%d first_pfx=%d first_keys=%d saw_new_pfx=%d saw_new_keys=%d saw_new_pfx_with_old_keys=%d "
+	       "saw_new_keys_with_old_pfx=%d gap_pfx=%d gap_keys=%d sync_parked_inside_pfx_section=%d reader_rounds_while_parked=%d "
+	       "final_pfx=%u final_keys=%u\n",
+	       park_pfx ? "pfx" : "spki", (int)(intptr_t)rc, atomic_load(&x_first_v), atomic_load(&x_first_k),
+	       atomic_load(&x_seen_new_pfx), atomic_load(&x_seen_new_keys), atomic_load(&x_seen_new_old),
+	       atomic_load(&x_seen_newkeys_oldpfx), atomic_load(&x_gap_v), atomic_load(&x_gap_k), parked_in_section,
+	       rounds_parked, fv.state, fk.count);
 	return 0;
 }
 
